@@ -10,3 +10,4 @@ import RaftWal.Props.C16
 #print axioms RaftWal.C16.cluster_no_false_alarm
 #print axioms RaftWal.C16.cluster_range_mismatch
 #print axioms RaftWal.C16.cluster_nonvacuous
+#print axioms RaftWal.C16.sum_published_after_store
